@@ -51,6 +51,7 @@
 //! `walk_fields!`), `gen::Generate` (one line in `gen_arbitrary!` or a
 //! `gen_struct!`), and add it to a `reg!` list in [`registry()`].
 
+pub mod biglist;
 pub mod drift;
 pub mod gen;
 pub mod vectors;
@@ -118,6 +119,11 @@ pub trait DynValue {
 }
 
 struct Holder<T>(T);
+
+/// a concrete value as a `DynValue`
+pub fn boxed<T: Registrable>(v: T) -> Box<dyn DynValue> {
+    Box::new(Holder(v))
+}
 
 pub trait Registrable: Streamable + Generate + Walk + Clone + PartialEq + Debug + 'static {}
 impl<T: Streamable + Generate + Walk + Clone + PartialEq + Debug + 'static> Registrable for T {}
